@@ -1332,6 +1332,7 @@ func c15SameButZeroSign(a, b string) bool {
 func c15_runC15(e *Env) {
 	e.R.Rule = "pairs and triples: every ordered pair/triple of a boundary pool (ints at 0, ±1, 2^53±k, int64 extremes; floats adjacent to those, ±0, ±Inf, subnormals; bytes; strings with multi-byte runes and invalid UTF-8; bool; nil; errors; nested lists; maps; sets) " +
 		"plus seeded random values (nested to depth 3) paired with a mutated copy; plus a container pool (maps of equal size with different key sets, keys bound to nil/false/0/\"\"/0.0, sets of equal size with different items, all of them nested in lists and maps) and seeded families of related containers (a base map/set/list and copies with one key renamed, one value set to nil, one entry dropped/added, one nested value changed, or wrapped), every ordered pair and same-type triple of each family, == also recomputed entry by entry; sort/set inputs: random lists over the same generators (sort: ≤ 20 items when the guard or a type error is possible, up to 64 otherwise). " +
+		"error objects: seeded families of Go errors related by wrapping (fmt.Errorf %w), joining, errz wrappers and equal messages under different identities, held by error objects with either raised flag, built through the Go API and by scripts (errors.new / fmt.errorf / errors.type_error / try) — every ordered pair against the Lean model of error objects and every pair / same-type triple, also lifted into lists and maps, through the laws; containers with a history: one set / map / list object, 2–10 operations drawn from every mutating entry point (set: Add, Remove, DelItem = delete(), Clear; map: SetItem/Set, DelItem/Delete, Pop, SetDefault, Clear, a rejected non-string key; list: Append, Insert, Pop, Remove, DelItem, Clear) interleaved with observations (SortedItems/SortedKeys, Inspect, Iter, List/Keys, Interface, JSON, sorted(), ==), removals aimed at current members, and after EVERY step the hash-based view (in for every value of the case's table, len, truthiness) against the order-based views (iteration, sorted item list, list(), sorted()) and against the Lean history model, on the object API and for a third of the histories through a script. " +
 		"A case is distinct by the canonical rendering of its values (floats as IEEE bits); non-trivial when the values are not all identical, lists when length ≥ 2"
 	pool, quickN := c15Pool()
 	g := &c15Gen{rng: e.Rng.Fork(), pool: pool}
@@ -1480,4 +1481,8 @@ func c15_runC15(e *Env) {
 		}
 		c15SetCase(e, items, probes, s%4 == 0)
 	}
+
+	// 5. values that carry more than == may look at: error objects holding related Go errors;
+	// set / map / list objects reached through a history (c15hist.go)
+	c15Histories(e, g)
 }
